@@ -63,12 +63,17 @@ pub struct JobResult {
 pub fn judge_execution(program: &Program, ex: &Execution, rules: &[Rule]) -> (Vec<Finding>, Vec<String>) {
     let m = model::build(program, ex);
     let mut machinery = Vec::new();
-    for e in &m.ill_formed {
-        machinery.push(format!("ill-formed program {}: {e}", program.name));
+    // a panic out of a fastrace call leaves the program's own bookkeeping behind (the span it was
+    // creating does not exist, ...): what follows is a consequence of the panic, not a harness bug
+    let panicked = ex.obs.iter().any(|o| matches!(o.val, crate::interp::ObsVal::Panic(_)));
+    if !panicked {
+        for e in &m.ill_formed {
+            machinery.push(format!("ill-formed program {}: {e}", program.name));
+        }
     }
     match &ex.outcome {
         Outcome::Diverged(d) => machinery.push(format!("schedule diverged: {d}")),
-        Outcome::IllFormed(d) => machinery.push(format!("ill-formed program {}: {d}", program.name)),
+        Outcome::IllFormed(d) if !panicked => machinery.push(format!("ill-formed program {}: {d}", program.name)),
         _ => {}
     }
     let j = Judge::new(program, ex, &m);
@@ -137,7 +142,7 @@ fn is_nontrivial(ex: &Execution) -> bool {
 
 pub fn run_job(job: &Job) -> JobResult {
     let t0 = Instant::now();
-    init_process(job.cancelable);
+    init_process_mode(job.cancelable, job.no_reporter);
     let rules: Vec<Rule> = job.rules.iter().map(|s| rule_of(s)).collect();
     let mut res = JobResult { job_id: job.id, ..Default::default() };
     let mut states = HashSet::new();
@@ -254,7 +259,7 @@ pub fn run_job(job: &Job) -> JobResult {
 /// Re-runs the schedule and keeps the finding only if it shows up again (twice in total).
 fn add_finding(res: &mut JobResult, program: &Program, rules: &[Rule], fd: Finding, ex: &Execution) {
     let mut reproduced = false;
-    if matches!(ex.outcome, Outcome::Completed) {
+    if matches!(ex.outcome, Outcome::Completed | Outcome::IllFormed(_)) {
         let ex2 = run_once(program, &ex.choices);
         let (fs2, _) = judge_execution(program, &ex2, rules);
         reproduced = ex2.choices == ex.choices && fs2.iter().any(|x| x.rule == fd.rule && x.what == fd.what);
@@ -290,9 +295,10 @@ struct Worker {
     stdin: ChildStdin,
     stdout: BufReader<ChildStdout>,
     cancelable: bool,
+    no_reporter: bool,
 }
 
-fn spawn_worker(cancelable: bool) -> Worker {
+fn spawn_worker(cancelable: bool, no_reporter: bool) -> Worker {
     let exe = std::env::current_exe().unwrap();
     let mut child = Command::new(exe)
         .arg("worker")
@@ -304,7 +310,7 @@ fn spawn_worker(cancelable: bool) -> Worker {
         .expect("spawn worker");
     let stdin = child.stdin.take().unwrap();
     let stdout = BufReader::new(child.stdout.take().unwrap());
-    Worker { child, stdin, stdout, cancelable }
+    Worker { child, stdin, stdout, cancelable, no_reporter }
 }
 
 impl Worker {
@@ -364,6 +370,7 @@ fn known_match(k: &KnownEntry, property: &str, fd: &Finding, program: &str, canc
         return false;
     }
     let prog_ok = if let Some(pre) = k.program.strip_suffix('*') { program.starts_with(pre) } else { k.program == program };
+    let _ = cancelable;
     let cfg_ok = match k.config.as_str() {
         "default" => !cancelable,
         "cancelable" => cancelable,
@@ -377,6 +384,8 @@ pub struct Replay {
     pub property: String,
     pub program: Program,
     pub cancelable: bool,
+    #[serde(default)]
+    pub no_reporter: bool,
     pub choices: Vec<u32>,
     pub rules: Vec<String>,
     pub finding: Finding,
@@ -398,6 +407,7 @@ pub struct CheckSpec {
 
 struct JobMeta {
     cancelable: bool,
+    no_reporter: bool,
     rules: Vec<String>,
 }
 
@@ -453,7 +463,7 @@ pub fn run_check(spec: CheckSpec) -> i32 {
                     let mut q = queue.lock().unwrap();
                     // prefer a job of the configuration this worker already has
                     let pos = match &worker {
-                        Some(w) => q.iter().position(|j| j.cancelable == w.cancelable).or(if q.is_empty() { None } else { Some(0) }),
+                        Some(w) => q.iter().position(|j| j.cancelable == w.cancelable && j.no_reporter == w.no_reporter).or(if q.is_empty() { None } else { Some(0) }),
                         None => {
                             if q.is_empty() {
                                 None
@@ -482,11 +492,11 @@ pub fn run_check(spec: CheckSpec) -> i32 {
                     *inflight.lock().unwrap() -= 1;
                     continue;
                 }
-                if worker.as_ref().map_or(true, |w| w.cancelable != job.cancelable) {
+                if worker.as_ref().map_or(true, |w| w.cancelable != job.cancelable || w.no_reporter != job.no_reporter) {
                     if let Some(w) = worker.take() {
                         w.kill();
                     }
-                    worker = Some(spawn_worker(job.cancelable));
+                    worker = Some(spawn_worker(job.cancelable, job.no_reporter));
                 }
                 let want_split = split.contains(&job.id) && !job.expand_only && job.prefix.is_empty();
                 if want_split {
@@ -540,13 +550,13 @@ pub fn run_check(spec: CheckSpec) -> i32 {
                             if let Some(s) = &res.sample {
                                 a.samples.push(serde_json::json!({
                                     "program": job_name(&job),
-                                    "config": if job.cancelable { "cancelable" } else { "default" },
+                                    "config": if job.no_reporter { "no-reporter" } else if job.cancelable { "cancelable" } else { "default" },
                                     "schedule": s,
                                 }));
                             }
                         }
                         for g in res.findings {
-                            a.findings.push((JobMeta { cancelable: job.cancelable, rules: job.rules.clone() }, g));
+                            a.findings.push((JobMeta { cancelable: job.cancelable, no_reporter: job.no_reporter, rules: job.rules.clone() }, g));
                         }
                         drop(a);
                         if job.expand_only && want_split {
@@ -590,7 +600,7 @@ fn finish_check(spec: &CheckSpec, agg: Agg, t0: Instant) -> i32 {
     let family = |name: &str| name.split('#').next().unwrap_or(name).to_string();
     let mut groups: BTreeMap<String, (u64, u64, usize)> = BTreeMap::new();
     for (i, (job, g)) in agg.findings.iter().enumerate() {
-        let cfg = if job.cancelable { "cancelable" } else { "default" };
+        let cfg = if job.no_reporter { "no-reporter" } else if job.cancelable { "cancelable" } else { "default" };
         let key = format!("{}|{}|{}|{}", g.finding.rule, g.finding.what, family(&g.program.name), cfg);
         let e = groups.entry(key).or_insert((0, 0, i));
         e.0 += 1;
@@ -603,7 +613,7 @@ fn finish_check(spec: &CheckSpec, agg: Agg, t0: Instant) -> i32 {
     }
     for (key, (nprog, nexec, i)) in &groups {
         let (job, g) = &agg.findings[*i];
-        let cfg = if job.cancelable { "cancelable" } else { "default" };
+        let cfg = if job.no_reporter { "no-reporter" } else if job.cancelable { "cancelable" } else { "default" };
         let fam = family(&g.program.name);
         if let Some(k) = known.entries.iter().find(|k| known_match(k, &spec.property, &g.finding, &fam, job.cancelable)) {
             *known_hits
@@ -630,6 +640,7 @@ fn finish_check(spec: &CheckSpec, agg: Agg, t0: Instant) -> i32 {
             property: spec.property.clone(),
             program: g.program.clone(),
             cancelable: job.cancelable,
+            no_reporter: job.no_reporter,
             choices: g.choices.clone(),
             rules: job.rules.clone(),
             finding: g.finding.clone(),
@@ -710,7 +721,7 @@ fn finish_check(spec: &CheckSpec, agg: Agg, t0: Instant) -> i32 {
 /// Re-executes a replay file twice; exit code 1 when the finding shows up both times.
 pub fn replay_main(path: &str) -> i32 {
     let rp: Replay = serde_json::from_str(&std::fs::read_to_string(path).expect("replay file")).expect("replay json");
-    init_process(rp.cancelable);
+    init_process_mode(rp.cancelable, rp.no_reporter);
     let rules: Vec<Rule> = rp.rules.iter().map(|s| rule_of(s)).collect();
     let mut hits = 0;
     for round in 0..2 {
